@@ -7,6 +7,7 @@ import (
 	"fmt"
 	"strconv"
 	"strings"
+	"sync/atomic"
 	"testing"
 	"time"
 
@@ -27,15 +28,23 @@ type c20Case struct {
 	PauseUs map[int]int `json:"pause_us"` // pause of the feeder before line id
 	Reloads []c20Reload `json:"reloads"`
 	Scans   int         `json:"scans"` // extra patterns evaluated before the writes (cost of a heavy line)
+	// the program ends in `else { stop }` and lines that match nothing (taking
+	// that path) are sent before the listed ids
+	ElseStop   bool         `json:"else_stop,omitempty"`
+	JunkBefore map[int]bool `json:"junk_before,omitempty"`
 }
 
-func c20Source(ver, scans int) string {
+func c20Source(ver, scans int, elseStop bool) string {
 	var sb strings.Builder
 	sb.WriteString("counter seen by ver, id\ngauge last\ngauge prev\ncounter inversions\n")
 	for i := 0; i < scans; i++ {
 		fmt.Fprintf(&sb, "/qq%dzz$/ {\n  inversions += 1000\n}\n", i)
 	}
-	fmt.Fprintf(&sb, "/^(?P<id>\\d+)( [a-z ]*)?$/ {\n  seen[\"v%d\"][$id]++\n  $id < prev {\n    inversions++\n  }\n  prev = $id\n  last = $id\n}\n", ver)
+	fmt.Fprintf(&sb, "/^(?P<id>\\d+)( [a-z ]*)?$/ {\n  seen[\"v%d\"][$id]++\n  $id < prev {\n    inversions++\n  }\n  prev = $id\n  last = $id\n}", ver)
+	if elseStop {
+		sb.WriteString(" else {\n  stop\n}")
+	}
+	sb.WriteString("\n")
 	fmt.Fprintf(&sb, "# version %d\n", ver)
 	return sb.String()
 }
@@ -55,7 +64,7 @@ func runC20(c c20Case) (*vstat.Failure, c20Info) {
 			panic(err)
 		}
 		defer e.close()
-		if err := e.r.CompileAndRun(name, strings.NewReader(c20Source(1, c.Scans))); err != nil {
+		if err := e.r.CompileAndRun(name, strings.NewReader(c20Source(1, c.Scans, c.ElseStop))); err != nil {
 			return vstat.Failf("load-error", "%v", err)
 		}
 		base := processed(name)
@@ -65,13 +74,19 @@ func runC20(c c20Case) (*vstat.Failure, c20Info) {
 			payloads[id] = " " + strings.Repeat("abcdefg ", kb*128)
 		}
 		feedDone := make(chan struct{})
+		var handed atomic.Int64 // lines (junk included) the runtime has taken
 		go func() {
 			defer close(feedDone)
 			for id := 1; id <= c.N; id++ {
 				if us := c.PauseUs[id]; us > 0 {
 					time.Sleep(time.Duration(us) * time.Microsecond)
 				}
+				if c.JunkBefore[id] {
+					e.lines <- lineOf("not a numbered line")
+					handed.Add(1)
+				}
 				e.lines <- lineOf(strconv.Itoa(id) + payloads[id])
+				handed.Add(1)
 				sent <- id
 			}
 		}()
@@ -90,12 +105,12 @@ func runC20(c c20Case) (*vstat.Failure, c20Info) {
 			if rl.DelayUs > 0 {
 				time.Sleep(time.Duration(rl.DelayUs) * time.Microsecond)
 			}
-			if int(processed(name)-base) < nsent {
+			if int64(processed(name)-base) < handed.Load() {
 				info.overlapped++
 			}
 			ver++
 			info.reloads++
-			if err := e.r.CompileAndRun(name, strings.NewReader(c20Source(ver, c.Scans))); err != nil {
+			if err := e.r.CompileAndRun(name, strings.NewReader(c20Source(ver, c.Scans, c.ElseStop))); err != nil {
 				return vstat.Failf("reload-error", "%v", err)
 			}
 		}
@@ -199,6 +214,15 @@ func TestC20(t *testing.T) {
 			np := rapid.IntRange(0, 3).Draw(rt, "npauses")
 			for i := 0; i < np; i++ {
 				c.PauseUs[rapid.IntRange(1, c.N).Draw(rt, "pauseat")] = rapid.SampledFrom([]int{10, 200, 2000}).Draw(rt, "pause")
+			}
+			if rapid.Bool().Draw(rt, "elsestop") {
+				c.ElseStop = true
+				c.JunkBefore = map[int]bool{}
+				nj := rapid.IntRange(1, 4).Draw(rt, "njunk")
+				for i := 0; i < nj; i++ {
+					c.JunkBefore[rapid.IntRange(1, c.N).Draw(rt, "junkat")] = true
+				}
+				st.Class("program-ends-in-else-stop")
 			}
 			f, info := runC20(c)
 			st.Eval()
